@@ -14,17 +14,17 @@ import (
 var svcPool = []string{"foo", "bar", "foo", "my service", "  padded\tname ", "svc-{{cluster}}", "baz_1"}
 var badSvcPool = []string{"", "   ", "\t"}
 var clusterKeys = []string{"sso", "prod", "staging", "{{cluster}}"}
-var fromPool = []string{"foo.example.com", "bar.sso.{{cluster}}.{{root_domain}}", "a.example.com", "b.example.com:8443",
+var fromPool = []string{"app.sso.{{cluster}}.{{root_domain}}:8443", "foo.example.com", "bar.sso.{{cluster}}.{{root_domain}}", "a.example.com", "b.example.com:8443",
 	"{{x}}.example.com", "https://pinned.example.com"}
 var fromRegexPool = []string{"^(.*)\\.rewrite\\.example\\.com$", "(?P<n>[a-z]+)--app\\.example\\.com", "^{{x}}-(.*)\\.example\\.com$"}
 var badFromPool = []string{"([bad", "a b.example.com", "{{undefined}}.example.com", "x%zz", "*bad"}
-var toPool = []string{"foo.internal", "bar.{{cluster}}.{{root_domain}}", "$1.internal", "http://full.internal:8080/base", "10.0.0.1:9000", "{{x}}"}
+var toPool = []string{"backend.internal:8080", "localhost:9090", "foo.internal", "bar.{{cluster}}.{{root_domain}}", "$1.internal", "http://full.internal:8080/base", "10.0.0.1:9000", "{{x}}"}
 var badToPool = []string{"b c", "%zz", "{{undefined}}"}
 var typePool = []string{"", "", "", "simple", "rewrite"}
 var badTypePool = []string{"unknown", "Simple", "regex", "{{undefined}}"}
 var skipPool = []string{"^/a$", "^\\/github-webhook\\/$", "^/{{x}}/health$", ".*", "^/api/v[0-9]+/ping$"}
 var badSkipPool = []string{"(", "[a", "*", "a{2,1}", "{{undefined}}("}
-var groupPool = []string{"g1", "g2", "eng@example.com", "sso-{{cluster}}-admins", "*"}
+var groupPool = []string{"g1", "g2", "eng@example.com", "sso-{{cluster}}-admins", "*", "g1", "g2", "", " "}
 var domainPool = []string{"example.com", "{{root_domain}}", "a.com", "*"}
 var addrPool = []string{"bob@b.com", "alice@{{root_domain}}", "*"}
 var hdrKeys = []string{"X-Frame-Options", "Content-Security-Policy", "Authorization", "X-A", "X-B"}
@@ -163,7 +163,7 @@ func genBlock(r *c.Rng, role int, pBad float64) *Block {
 }
 
 func genEnv(r *c.Rng, d Doc, clean bool) Env {
-	e := Env{Cluster: r.Pick([]string{"sso", "sso", "sso", "prod", "default"})}
+	e := Env{Cluster: r.Pick([]string{"sso", "sso", "sso", "prod", "default"}), Scheme: r.Pick([]string{"http", "http", "https"})}
 	// deployment defaults (the environment's ALLOWED_* settings, default timeout, provider, cookie name)
 	k := r.Intn(6)
 	if clean && k == 0 && r.Chance(0.6) {
